@@ -257,6 +257,25 @@ def gen_history(rng, tier, faulty):
                     {"key": key, "keyform": form, "value": vs,
                      "valueform": "list" if len(vs) > 1 or rng.random() < 0.5 else "str"}
                 )
+    ctor_conflict = False
+    if faulty and ctor and rng.random() < 0.15:
+        # refusal fault in the constructor: a second spelling of an axis set that is already listed ("X" next to
+        # ("X",), ("X", "Y") next to ("Y", "X")) names a variable at an occupied position - the constructor
+        # registers without overwrite, so it must refuse
+        e = rng.choice(ctor)
+        axes = list(_axes_of(e))
+        if len(axes) == 1:
+            key, form = (axes, "tuple") if e["keyform"] == "str" else (axes[0], "str")
+        else:
+            key, form = axes[::-1], "tuple"
+        if not any(_ctor_key({"key": key, "keyform": form}) == _ctor_key(c) for c in ctor):
+            taken = rng.choice(e["value"])
+            twin = [n for n in names_by_axes[tuple(sorted(axes))] if frozenset(POOL[n][1]) == frozenset(POOL[taken][1])]
+            free = [n for n in names_by_axes[tuple(sorted(axes))]
+                    if not model.would_refuse(tuple(axes), n, False)]
+            vs = ([rng.choice(free)] if free and rng.random() < 0.5 else []) + [rng.choice(twin)]
+            ctor.append({"key": key, "keyform": form, "value": vs, "valueform": "list" if len(vs) > 1 or rng.random() < 0.5 else "str"})
+            ctor_conflict = True
     calls = []
     ncalls = rng.randint(1, max_calls)
     nfault = 0
@@ -301,7 +320,15 @@ def gen_history(rng, tier, faulty):
                 if not model.apply_one(axes, v, call["overwrite"]):
                     break
         calls.append(call)
-    return {"ctor": ctor, "calls": calls, "faulty": bool(faulty)}
+    h = {"ctor": ctor, "calls": calls, "faulty": bool(faulty)}
+    if ctor_conflict:
+        h["ctor_conflict"] = True
+    return h
+
+
+def _ctor_key(c):
+    """the key under which a constructor entry is listed in the metrics= mapping"""
+    return _key_obj(c) if c["keyform"] != "list" else tuple(c["key"])
 
 
 def shape_of(h, outcomes):
@@ -363,16 +390,30 @@ def execute(h, reader_ds=None, counters=None, check_regroup=True):
     kw = worlds.grid_kwargs(gs)
     ctor = {}
     for c in h["ctor"]:
-        ctor[_key_obj(c) if c["keyform"] != "list" else tuple(c["key"])] = _val_obj(c)
+        ctor[_ctor_key(c)] = _val_obj(c)
+    # constructor entries are registrations without overwrite, in listing order
+    pre, conflict = Model(), False
+    for c in h["ctor"]:
+        for v in c["value"]:
+            if not conflict and not pre.apply_one(_axes_of(c), v, False):
+                conflict = True
     with warnings.catch_warnings():
         warnings.simplefilter("ignore")
         try:
             grid = xgcm.Grid(ds, metrics=ctor if ctor else None, **kw)
         except Exception as e:
+            if conflict:
+                cnt.inc("refusal_ctor_occupied_fired")
+                return (None, ["ctor-refused"], None)
             return (
                 {"fingerprint": f"C16/ctor-raised/{type(e).__name__}",
                  "detail": f"constructor with conflict-free metrics raised {type(e).__name__}: {e}"},
                 ["ctor-exc"], None)
+    if conflict:
+        return ({"fingerprint": "C16/refusal-missing/ctor",
+                 "detail": f"constructor entries {h['ctor']} register a variable into an occupied slot (two spellings of "
+                           f"one axis set) without overwrite; the constructor accepted them instead of refusing"},
+                ["ctor-ok"], None)
     cands = [Model()]
     for c in h["ctor"]:
         for v in c["value"]:
